@@ -59,6 +59,7 @@ type World struct {
 	Unresolved []string
 	Sigs      map[*FuncContract]*sigInfo
 	specFns   map[string]*ssa.Function
+	TrustedPkgDir string
 }
 
 func parseModEntry(m string) *ModSpec {
@@ -123,6 +124,9 @@ func parsePackageDir(fset *token.FileSet, dir string) (map[string]*ast.File, str
 	ctx.BuildTags = []string{"verif"}
 	ents, err := os.ReadDir(dir)
 	if err != nil {
+		if os.IsNotExist(err) {
+			return map[string]*ast.File{}, filepath.Base(dir), nil
+		}
 		return nil, "", err
 	}
 	files := map[string]*ast.File{}
@@ -225,6 +229,9 @@ func (w *World) GenerateSpecs() error {
 	fset := token.NewFileSet()
 	for _, cf := range w.Files {
 		dir := filepath.Dir(cf.Path)
+		if cf.PkgDir != "" {
+			dir = cf.PkgDir
+		}
 		cf.PkgDir = dir
 		files, pkgName, err := parsePackageDir(fset, dir)
 		if err != nil {
@@ -335,6 +342,9 @@ func (w *World) GenerateSpecs() error {
 				zero = "nil"
 			}
 			fmt.Fprintf(&body, "func %s%s %s { return %s }\n\n", g.Name, g.Params, g.Result, zero)
+		}
+		for _, g := range cf.GoDecls {
+			body.WriteString(g + "\n\n")
 		}
 		for _, p := range cf.Preds {
 			ctx.params = map[string]bool{}
@@ -457,7 +467,14 @@ func (w *World) GenerateSpecs() error {
 		var hdr strings.Builder
 		hdr.WriteString("//go:build verif\n\n// Code generated by govc from " + contractFileName + "; overlay only, never written to /repo.\n\npackage " + pkgName + "\n\n")
 		used := map[string]bool{}
-		for _, m := range qualRe.FindAllStringSubmatch(txt, -1) {
+		var codeOnly strings.Builder
+		for _, ln := range strings.Split(txt, "\n") {
+			if !strings.HasPrefix(strings.TrimSpace(ln), "//") {
+				codeOnly.WriteString(ln)
+				codeOnly.WriteByte('\n')
+			}
+		}
+		for _, m := range qualRe.FindAllStringSubmatch(codeOnly.String(), -1) {
 			used[m[1]] = true
 		}
 		var al []string
@@ -502,6 +519,34 @@ func LoadWorld(repo string, patterns []string) (*World, error) {
 		}
 		w.Files = append(w.Files, cf)
 	}
+	if td := os.Getenv("GOVC_TRUSTED_DIR"); td != "" {
+		specs, _ := filepath.Glob(filepath.Join(td, "*.spec"))
+		sort.Strings(specs)
+		// all trusted specs are merged into one overlay-only package
+		var merged *ContractFile
+		for _, p := range specs {
+			cf, err := ParseContractFile(p)
+			if err != nil {
+				return nil, err
+			}
+			if merged == nil {
+				merged = cf
+				merged.PkgDir = filepath.Join(repo, "internal", "zz_verifspec")
+			} else {
+				merged.Imports = append(merged.Imports, cf.Imports...)
+				merged.Ghosts = append(merged.Ghosts, cf.Ghosts...)
+				merged.Preds = append(merged.Preds, cf.Preds...)
+				merged.GoDecls = append(merged.GoDecls, cf.GoDecls...)
+				merged.Funcs = append(merged.Funcs, cf.Funcs...)
+				merged.Consts = append(merged.Consts, cf.Consts...)
+				merged.Lemmas = append(merged.Lemmas, cf.Lemmas...)
+			}
+		}
+		if merged != nil {
+			w.Files = append(w.Files, merged)
+			w.TrustedPkgDir = merged.PkgDir
+		}
+	}
 	if extra := os.Getenv("GOVC_EXTRA_CONTRACTS"); extra != "" {
 		for _, p := range strings.Split(extra, ":") {
 			cf, err := ParseContractFile(p)
@@ -527,6 +572,9 @@ func LoadWorld(repo string, patterns []string) (*World, error) {
 		BuildFlags: []string{"-tags=verif"},
 		Overlay:    w.GenFiles,
 		Env:        append(os.Environ(), "GOFLAGS=-mod=mod", "GOPROXY=off", "GOSUMDB=off", "GOTOOLCHAIN=local"),
+	}
+	if w.TrustedPkgDir != "" {
+		patterns = append(patterns, "./internal/zz_verifspec")
 	}
 	pkgs, err := packages.Load(cfg, patterns...)
 	if err != nil {
@@ -559,6 +607,9 @@ func LoadWorld(repo string, patterns []string) (*World, error) {
 		if len(p.GoFiles) > 0 {
 			dirToPkg[filepath.Dir(p.GoFiles[0])] = p
 		}
+		if strings.HasSuffix(p.PkgPath, "/zz_verifspec") && w.TrustedPkgDir != "" {
+			dirToPkg[w.TrustedPkgDir] = p
+		}
 	}
 	for _, cf := range w.Files {
 		p := dirToPkg[cf.PkgDir]
@@ -576,6 +627,9 @@ func LoadWorld(repo string, patterns []string) (*World, error) {
 					return nil, fmt.Errorf("%s:%d: duplicate contract for %s", cf.Path, fc.Line, fc.Key)
 				}
 				w.Contracts[fc.Key] = fc
+				for _, a := range fc.Aliases {
+					w.Contracts[a] = fc
+				}
 				continue
 			}
 			fn := lookupFunc(prog, sp, fc.Key)
